@@ -70,7 +70,7 @@ TzData synthx_zone(uint64_t seed) {
   uint64_t what = r.below(10);
   if (what < 3) {
     // More types than a one-byte index can address.
-    size_t n = static_cast<size_t>(r.pick(std::vector<int>{256, 257, 258, 300, 512}));
+    size_t n = static_cast<size_t>(r.pick(std::vector<int>{255, 256, 256, 256, 257, 300}));
     int dstmode = static_cast<int>(r.below(4));  // 0: all dst, 1: none, 2: first 256 dst, 3: random
     TzType proto = d.types.empty() ? TzType() : d.types[0];
     d.types.clear();
@@ -86,8 +86,8 @@ TzData synthx_zone(uint64_t seed) {
     d.isstd.clear(); d.isut.clear();
   } else if (what < 6) {
     // Extreme transition instants.
-    static const int64_t ext[] = {INT64_MIN, INT64_MIN + 1, -(1LL << 62), -(1LL << 61), -(1LL << 60), -(1LL << 59) - 1,
-                                  (1LL << 59), (1LL << 60), (1LL << 61), (1LL << 62), INT64_MAX - 1, INT64_MAX};
+    static const int64_t ext[] = {INT64_MIN, -(1LL << 62), -(1LL << 59) - 1, -(1LL << 59), -(1LL << 59) + 1, -(1LL << 58),
+                                  (1LL << 58), (1LL << 59) - 1, (1LL << 59), (1LL << 59) + 1, (1LL << 62), INT64_MAX};
     size_t n = static_cast<size_t>(r.range(1, 4));
     std::vector<int64_t> ts;
     for (size_t i = 0; i < n; ++i) ts.push_back(ext[r.below(12)]);
@@ -205,10 +205,10 @@ ByteFault random_fault(Rng* r, const std::string& kind, const std::string& bytes
   f.k = kind;
   auto anywhere = [&]() -> int64_t {
     if (bytes.empty()) return 0;
-    if (L.ok && r->chance(0.7)) {  // bias into headers and tables
-      static const int regions = 6;
-      size_t starts[regions] = {0, L.hdr2, L.times, L.idx, L.types, L.abbrs};
-      size_t ends[regions] = {44, L.hdr2 + 44, L.idx, L.types, L.abbrs, L.total};
+    if (L.ok && r->chance(0.8)) {  // bias into the tables (survivable damage) and, less often, the headers
+      static const int regions = 8;
+      size_t starts[regions] = {0, L.hdr2, L.times, L.idx, L.types, L.abbrs, L.times, L.types};
+      size_t ends[regions] = {44, L.hdr2 + 44, L.idx, L.types, L.abbrs, L.total, L.idx, L.total};
       int g = static_cast<int>(r->below(regions));
       if (ends[g] > starts[g]) return static_cast<int64_t>(starts[g] + r->below(ends[g] - starts[g]));
     }
@@ -233,22 +233,36 @@ ByteFault random_fault(Rng* r, const std::string& kind, const std::string& bytes
     if (L.total >= 44) { size_t off = 20 + 4 * static_cast<size_t>(f.b) + (f.a == 1 ? L.hdr2 : 0); if (off + 4 <= bytes.size()) orig = get32(bytes, off); }
     static const std::vector<int64_t> vals = {0, 1, 2, 255, 256, 257, 32768, 65536, 2147483647LL, -1, -2147483648LL};
     f.v = r->chance(0.3) ? orig + r->range(-2, 2) : r->pick(vals);
-  } else if (kind == "typeidx") { f.a = static_cast<int64_t>(r->below(std::max<size_t>(1, L.timecnt))); int64_t tc = static_cast<int64_t>(L.typecnt); f.v = r->pick(std::vector<int64_t>{tc - 1, tc, tc + 1, 255, 1, 128}); }
-  else if (kind == "abbridx") { f.a = static_cast<int64_t>(r->below(std::max<size_t>(1, L.typecnt))); int64_t cc = static_cast<int64_t>(L.charcnt); f.v = r->pick(std::vector<int64_t>{cc - 1, cc, cc + 1, 255, 1, cc - 2}); }
-  else if (kind == "isdst") { f.a = static_cast<int64_t>(r->below(std::max<size_t>(1, L.typecnt))); f.v = r->pick(std::vector<int64_t>{1, 2, 255, 128}); }
-  else if (kind == "utoff") { f.a = static_cast<int64_t>(r->below(std::max<size_t>(1, L.typecnt))); f.v = r->pick(std::vector<int64_t>{86399, 86400, -86399, -86400, 2147483647LL, -2147483648LL, 1, -1, 43200, 90000}); }
+  } else if (kind == "typeidx") {
+    f.a = static_cast<int64_t>(r->below(std::max<size_t>(1, L.timecnt))); int64_t tc = static_cast<int64_t>(L.typecnt);
+    f.v = r->chance(0.65) ? static_cast<int64_t>(r->below(std::max<size_t>(1, L.typecnt))) : r->pick(std::vector<int64_t>{tc - 1, tc, tc + 1, 255, 1, 128});
+  } else if (kind == "abbridx") {
+    f.a = static_cast<int64_t>(r->below(std::max<size_t>(1, L.typecnt))); int64_t cc = static_cast<int64_t>(L.charcnt);
+    f.v = r->chance(0.65) ? static_cast<int64_t>(r->below(std::max<size_t>(1, std::min<size_t>(L.charcnt, 256)))) : r->pick(std::vector<int64_t>{cc - 1, cc, cc + 1, 255, 1, cc - 2});
+  }
+  else if (kind == "isdst") { f.a = static_cast<int64_t>(r->below(std::max<size_t>(1, L.typecnt))); f.v = r->chance(0.7) ? static_cast<int64_t>(r->below(2)) : r->pick(std::vector<int64_t>{1, 2, 255, 128}); if (f.v == 0) { f.k = "zero"; f.a = static_cast<int64_t>(L.types + 6 * static_cast<size_t>(f.a) + 4); f.b = 1; } }
+  else if (kind == "utoff") {
+    f.a = static_cast<int64_t>(r->below(std::max<size_t>(1, L.typecnt)));
+    f.v = r->chance(0.6) ? r->pick(std::vector<int64_t>{3600, -3600, 5400, 86399, -86399, 1, -1, 43200, -43200, 37, 50400, -39600})
+                         : r->pick(std::vector<int64_t>{86399, 86400, -86399, -86400, 2147483647LL, -2147483648LL, 90000});
+  }
   else if (kind == "time") {
     f.a = static_cast<int64_t>(r->below(std::max<size_t>(1, L.timecnt)));
     static const std::vector<int64_t> vals = {INT64_MIN, INT64_MIN + 1, INT64_MAX, INT64_MAX - 1, -(1LL << 59), -(1LL << 59) - 1, -(1LL << 59) + 1, (1LL << 59),
                                               -(1LL << 62), (1LL << 62), -(1LL << 61), (1LL << 61), (1LL << 60), -(1LL << 60), 1, -1, 2147483647LL, 4102444800LL};
     f.v = r->pick(vals);
-    if (L.ok && r->chance(0.25) && L.timecnt > 1 && L.time_len == 8) {  // duplicate / inversion of a neighbour
+    if (L.ok && L.timecnt > 0 && L.time_len == 8 && r->chance(0.45)) {  // a plausible edit that keeps the table sorted most of the time
+      int64_t orig = get64(bytes, L.times + 8 * static_cast<size_t>(f.a));
+      f.v = orig + r->pick(std::vector<int64_t>{1, -1, 3600, -3600, 86400, -86400, 30 * 86400, -30 * 86400});
+      if (r->chance(0.2)) f.v = r->pick(std::vector<int64_t>{-(1LL << 59), (1LL << 59), (1LL << 59) - 1, -(1LL << 59) + 1, 0, 2147483647LL});
+      if (f.v == 0) f.v = 1;
+    } else if (L.ok && r->chance(0.25) && L.timecnt > 1 && L.time_len == 8) {  // duplicate / inversion of a neighbour
       size_t n = static_cast<size_t>(f.a) + 1 < L.timecnt ? static_cast<size_t>(f.a) + 1 : static_cast<size_t>(f.a) - 1;
       f.v = get64(bytes, L.times + 8 * n) + r->range(-1, 1);
       if (f.v == 0) f.v = 1;
     }
   } else if (kind == "version") { f.v = r->pick(std::vector<int64_t>{'2', '3', '4', '5', 0xff, 1, ' '}); if (r->chance(0.3)) { f.v = 0; f.k = "set"; f.a = 4; } }
-  else if (kind == "footer") { f.s = gen_posix_footer(r, r->chance(0.5)); f.v = r->chance(0.1) ? 1 : 0; /* v=1: missing final newline */ }
+  else if (kind == "footer") { f.s = gen_posix_footer(r, r->chance(0.7)); f.v = r->chance(0.1) ? 1 : 0; /* v=1: missing final newline */ }
   return f;
 }
 
@@ -282,12 +296,13 @@ C12Case gen_c12(const std::string& part, const std::string& tier, uint64_t seed,
   }
   uint64_t pb = wl.below(100);
   if (pb < 55) c.base = "shipped:" + wl.pick(shipped_names());
-  else if (pb < 80) c.base = "synth:" + std::to_string(wl.below(100000));
+  else if (pb < 88) c.base = "synth:" + std::to_string(wl.below(100000));
   else c.base = "synthx:" + std::to_string(wl.below(100000));
   std::string bytes = base_bytes(c.base);
   TzLayout L = layout_of(bytes);
-  static const std::vector<std::string> kinds = {"trunc", "flip", "flip", "set", "zero", "ff", "splice", "dupblock", "dropblock", "hdr", "hdr",
-                                                 "typeidx", "abbridx", "isdst", "utoff", "time", "time", "version", "footer", "footer", "footer"};
+  static const std::vector<std::string> kinds = {"trunc", "flip", "flip", "flip", "set", "zero", "ff", "splice", "dupblock", "dropblock", "hdr",
+                                                 "typeidx", "typeidx", "abbridx", "abbridx", "isdst", "isdst", "utoff", "utoff", "time", "time", "time",
+                                                 "version", "footer", "footer", "footer", "footer"};
   // Swarm: a random subset of fault kinds is enabled in this run.
   std::vector<std::string> enabled;
   size_t nen = static_cast<size_t>(fl.range(1, 4));
@@ -546,6 +561,9 @@ Outcome exec_c12(const C12Case& c, bool keep_log, Stats* stats) {
     else stats->add("probe.rejected");
     if (noops) stats->add("fault_noop", noops);
     for (const ByteFault& f : c.faults) stats->add("fault." + f.k);
+    if (c.faults.size() == 1 && c.eio_at < 0 && c.short_at < 0 && c.skip_mode == 0 && !att[0].skipped)
+      stats->add("single." + c.faults[0].k + (att[0].ok ? ".loaded" : ".rejected"));
+    if (c.faults.empty() && !att[0].skipped) stats->add("single.none." + c.base.substr(0, c.base.find(':')) + (att[0].ok ? ".loaded" : ".rejected"));
     for (auto& kv : rt.faults_fired) stats->add("fault." + kv.first, kv.second);
     for (auto& kv : rt.probes) stats->add("probe." + kv.first, kv.second);
     for (const std::string& t : tags) stats->add("probe.tag:" + t);
